@@ -126,6 +126,16 @@ fn trace_case(line: &str) -> Vec<String> {
     let mut out = vec![format!("CASE {}", line)];
     let mut g = mk_generator(&m);
     pf::verif::set_aliases(m.get("alias").map(|s| s == "1").unwrap_or(false));
+    // `pre=`: earlier, unrecorded calls on the same generator ("r" = reset()); the traced call must behave as on a fresh one
+    if let Some(pre) = m.get("pre") {
+        for p in pre.split('+') {
+            if p == "r" {
+                g.reset();
+            } else {
+                let _ = run_src(&mut g, p);
+            }
+        }
+    }
     pf::verif::start();
     let res = run_src(&mut g, &m["src"]);
     out.extend(pf::verif::take());
@@ -330,6 +340,61 @@ fn cmd_results(path: &str, threads: usize) {
             writeln!(w, "{}", l).unwrap();
         }
     }
+}
+
+/// every case in a process of its own (this binary re-executed with `one <case line>`): no earlier call, no other
+/// generator, fresh hash seeds and address space - the reference against which process-wide state shows
+fn cmd_isolated(path: &str, threads: usize) {
+    let lines: Vec<String> = std::io::BufReader::new(std::fs::File::open(path).unwrap())
+        .lines()
+        .map(|l| l.unwrap())
+        .filter(|l| !l.trim().is_empty() && !l.starts_with('#'))
+        .collect();
+    let exe = std::env::current_exe().unwrap();
+    let chunk = lines.len().div_ceil(threads.max(1)).max(1);
+    let results: Vec<Vec<String>> = std::thread::scope(|s| {
+        let hs: Vec<_> = lines
+            .chunks(chunk)
+            .map(|c| {
+                let exe = exe.clone();
+                s.spawn(move || {
+                    c.iter()
+                        .map(|l| {
+                            let out = std::process::Command::new(&exe).arg("one").arg(l).output();
+                            match out {
+                                Ok(o) if o.status.success() => String::from_utf8_lossy(&o.stdout).trim_end().to_string(),
+                                Ok(o) => format!("CASE {}\nRESULT panic child exited with {:?}\nEND", l, o.status.code()),
+                                Err(e) => format!("CASE {}\nRESULT panic spawn failed: {}\nEND", l, e),
+                            }
+                        })
+                        .collect::<Vec<String>>()
+                })
+            })
+            .collect();
+        hs.into_iter().map(|h| h.join().unwrap()).collect()
+    });
+    let stdout = std::io::stdout();
+    let mut w = std::io::BufWriter::new(stdout.lock());
+    for r in results {
+        for l in r {
+            writeln!(w, "{}", l).unwrap();
+        }
+    }
+}
+
+fn cmd_one(line: &str) {
+    let h = std::thread::Builder::new()
+        .stack_size(256 << 20)
+        .spawn({
+            let line = line.to_string();
+            move || {
+                let m = kv(&line);
+                let mut g = mk_generator(&m);
+                println!("CASE {}\n{}\nEND", line, run_src(&mut g, &m["src"]));
+            }
+        })
+        .unwrap();
+    h.join().unwrap();
 }
 
 /// nesting-depth witness NONE, TUPLE1 x n at the given protocol on a thread with `stack_kb` KiB of
@@ -537,6 +602,8 @@ fn main() {
     match a.get(1).map(|s| s.as_str()) {
         Some("trace") => cmd_trace(&a[2], a.get(3).map(|s| s.parse().unwrap()).unwrap_or(16)),
         Some("results") => cmd_results(&a[2], a.get(3).map(|s| s.parse().unwrap()).unwrap_or(16)),
+        Some("isolated") => cmd_isolated(&a[2], a.get(3).map(|s| s.parse().unwrap()).unwrap_or(16)),
+        Some("one") => cmd_one(&a[2]),
         Some("deep") => {
             let _ = std::panic::take_hook();
             cmd_deep(a[2].parse().unwrap(), a[3].parse().unwrap(), a[4].parse().unwrap())
